@@ -165,6 +165,25 @@ Inductive xres := XOk (shape : list nat) (states : list S) | XErrConserve | XErr
 
 Definition sel (c : nat) (t : triple S) : S := match c with 0 => fp t | 1 => fm t | _ => fz t end.
 
+(* one entry (row-major position m) of the result array of shape oshape ++ [ns; 3] *)
+Definition x_entry (o : xop) (s : smN) (oshape : list nat) (m : nat) : S :=
+  let ax := x_ax o in
+  let n := nth ax (x_shape o) 0 in
+  let full := oshape ++ [s_ns s; 3] in
+  let mshape := insert_at (ax + 1) n (x_shape o) ++ [3] in
+  let stshape := s_shape s ++ [s_ns s; 3] in
+  let idx := unravel full m in
+  let nd := length oshape in
+  let b := firstn nd idx in
+  let k := nth nd idx 0 in let c := nth (nd + 1) idx 0 in
+  let i := nth ax b 0 in
+  let M (c' : nat) : matN := fun i' j' =>
+    get mshape (x_mat o) (insert_at (ax + 1) j' (set_at ax i' (firstn (length (x_shape o)) b)) ++ [c']) in
+  let fib (sh : list nat) (d : list S) : fibre := fun j' k' =>
+    mk3 (get sh d (set_at ax j' b ++ [k'; 0])) (get sh d (set_at ax j' b ++ [k'; 1]))
+        (get sh d (set_at ax j' b ++ [k'; 2])) in
+  sel c (x_apply_fibre n (M 0) (M 1) (M 2) (fib stshape (s_st s)) (fib (fst (s_eq s)) (snd (s_eq s))) i k).
+
 Definition x_apply (o : xop) (s : smN) : xres :=
   let ax := x_ax o in
   let n := nth ax (x_shape o) 0 in
@@ -177,23 +196,7 @@ Definition x_apply (o : xop) (s : smN) : xres :=
   else if negb (Nat.eqb (nth ax (s_shape s) 0) 1 || Nat.eqb (nth ax (s_shape s) 0) n) then XErrShape
   else match bshape (x_shape o) (set_at ax n (s_shape s)) with
   | None => XErrShape
-  | Some oshape =>
-    let full := oshape ++ [s_ns s; 3] in
-    let mshape := insert_at (ax + 1) n (x_shape o) ++ [3] in
-    let stshape := s_shape s ++ [s_ns s; 3] in
-    XOk oshape (map (fun m =>
-      let idx := unravel full m in
-      let nd := length oshape in
-      let b := firstn nd idx in
-      let k := nth nd idx 0 in let c := nth (nd + 1) idx 0 in
-      let i := nth ax b 0 in
-      let M (c' : nat) : matN := fun i' j' =>
-        get mshape (x_mat o) (insert_at (ax + 1) j' (set_at ax i' (firstn (length (x_shape o)) b)) ++ [c']) in
-      let fib (sh : list nat) (d : list S) : fibre := fun j' k' =>
-        mk3 (get sh d (set_at ax j' b ++ [k'; 0])) (get sh d (set_at ax j' b ++ [k'; 1]))
-            (get sh d (set_at ax j' b ++ [k'; 2])) in
-      sel c (x_apply_fibre n (M 0) (M 1) (M 2) (fib stshape (s_st s)) (fib (fst (s_eq s)) (snd (s_eq s))) i k))
-      (seq 0 (prodl full)))
+  | Some oshape => XOk oshape (map (x_entry o s oshape) (seq 0 (prodl (oshape ++ [s_ns s; 3]))))
   end.
 
 (* executable comparisons *)
